@@ -11,11 +11,16 @@
      or "inside one run of consecutive trivially assignable / swappable fields": no field is
      skipped and no non-trivial object is ever moved byte-wise;
    * iterator expressions are index arithmetic.
-   PARTIAL: the move form, assignment within one vector, swap / iter_swap and the permuting
-   algorithms are modelled as written and decided by the correspondence check and its
-   content oracle (DESIGN.md, C11); in the model all access paths are the same function. *)
+   * swap(a, b) between element references of equal field sizes in different vectors leaves
+     each element holding exactly the tuple the other one held and touches nothing outside the
+     two extents (C11_reference_swap_exchanges_the_values; SwapThm.v: besides coverage this
+     needs the runs of the table to be pairwise disjoint, C11_runs_do_not_overlap);
+   PARTIAL: the move form, assignment and swap within one vector, and the permuting algorithms
+   (which are compositions of these) are modelled as written and decided by the correspondence
+   check and its content oracle (DESIGN.md, C11); in the model all access paths are the same
+   function. *)
 From Coq Require Import ZArith List Bool Lia.
-From Cntgs Require Import Base Layout Mem Vector Proxy World Spec Rep CompareThm RunsThm ElemThm CmpContent AssignThm.
+From Cntgs Require Import Base Layout Mem Vector Proxy World Spec Rep CompareThm RunsThm ElemThm CmpContent AssignThm SwapThm.
 Import ListNotations.
 Local Open Scope Z_scope.
 
@@ -67,3 +72,24 @@ Example C11_partially_trivial_tables :
              {| pk := Fixed; psz := 8; pal := 1; pty := TTrk |} ] in
   runs_swp L = [REnd 1; RSkip; RManual] /\ runs_asg L = [REnd 1; RSkip; RManual].
 Proof. vm_compute. split; reflexivity. Qed.
+
+(* swap between element references in different vectors, every list and run-table shape *)
+Theorem C11_reference_swap_exchanges_the_values : forall L, wf_plist L = true ->
+  forall tx ty fcx fcy, tuple_ok L fcx 0 tx -> tuple_ok L fcy 0 ty -> cnts_of ty = cnts_of tx ->
+  forall mx my xa ya, 0 <= xa /\ (SA L | xa) -> 0 <= ya /\ (SA L | ya) ->
+  elem_at L mx xa tx -> elem_at L my ya ty ->
+  forall xb yb,
+  let x' := fst (swap_all L xb yb (ref_fl L tx xa) (ref_fl L ty ya)
+                          {| m_s := mx; m_d := my; m_same := false |} (seq 0 (length L))) in
+  elem_at L (m_s x') xa ty /\ elem_at L (m_d x') ya tx /\
+  (forall y, ~ (xa <= y < xa + (elem_end L xa tx - xa)) -> m_s x' y = mx y) /\
+  (forall y, ~ (ya <= y < ya + (elem_end L xa tx - xa)) -> m_d x' y = my y).
+Proof. exact ref_swap_exchanges. Qed.
+Print Assumptions C11_reference_swap_exchanges_the_values.
+
+(* the runs of the tables are pairwise disjoint: behind the first field of a run the table
+   holds nothing up to the run's end - no second run, no MANUAL entry *)
+Theorem C11_runs_do_not_overlap : forall pred bpad bspan L,
+  separated (runs pred bpad bspan L) (length L).
+Proof. exact runs_separated. Qed.
+Print Assumptions C11_runs_do_not_overlap.
